@@ -5,7 +5,7 @@ import pandas as pd
 import polars as pl
 import pyarrow as pa
 
-from ..abstract import EMB, to_rat
+from ..abstract import EMB, dtdesc, to_rat
 from ..env import JUNK, NULL
 from ..util import call
 from . import api
@@ -97,6 +97,7 @@ def run_cum(case):
         tr.update(out="raise", exc=type(ex).__name__, msg=str(ex)[:160], res=[])
         return tr
     tr["out"] = "ok"
+    tr["idt"], tr["odt"] = dtdesc(values), dtdesc(out)
     a = _out_array(out)
     tr["rdtype"] = str(a.dtype)
     if fn == "cumcount":
@@ -145,6 +146,7 @@ def run_roll(case):
         tr.update(out="raise", exc=type(ex).__name__, msg=str(ex)[:160], res=[])
         return tr
     tr["out"] = "ok"
+    tr["idt"], tr["odt"] = dtdesc(values), dtdesc(out)
     if bygroup:
         # (group label, original position) index, sorted by label then position; map back to row order
         idx = out.index
@@ -288,8 +290,11 @@ def run_select(case):
     vdt = case.get("vdtype", "float64")
     ncols = case.get("ncols", 1)
     index = pd.Index(idx)
-    cols = {f"c{j}": np.arange(n_rows, dtype=vdt) + (1000003 * j if vdt != "float32" else 0) for j in range(ncols)}
+    temporal = np.dtype(vdt).kind in "mM"
+    cols = {f"c{j}": (np.arange(n_rows, dtype=np.int64) + (1000003 * j if vdt != "float32" else 0)).astype(vdt) for j in range(ncols)}
     values = pd.Series(cols["c0"], index=index, name="c0") if ncols == 1 else pd.DataFrame(cols, index=index)
+    if case.get("vcont") and ncols == 1:
+        values = api.wrap_container(cols["c0"], case["vcont"], name="c0", index=index)
     keys = pd.Series(keyarr, index=index) if case.get("kcont", "series") == "series" else keyarr
     tr = {"kind": case["kind"], "n": case["n"], "cfg": {k: case.get(k) for k in ("kenc", "ncols", "vdtype", "T", "kcont")}}
     if rle:
@@ -303,7 +308,15 @@ def run_select(case):
         tr.update(out="raise", exc=type(ex).__name__, msg=str(ex)[:160], rows=[], ridx=[])
         return tr
     tr["out"] = "ok"
-    if isinstance(out, pd.DataFrame):
+    tr["idt"], tr["odt"] = dtdesc(values), dtdesc(out)
+    if temporal or case.get("vcont"):
+        a = _out_array(out)
+        if a.dtype == object:          # time zone aware values come back as Timestamps
+            a = np.array([pd.Timestamp(x).tz_convert("UTC").tz_localize(None).to_datetime64() if x is not pd.NaT else np.datetime64("NaT") for x in a]).astype(vdt) if len(a) else a
+        if a.dtype.kind in "mM":
+            a = a.astype(vdt).view(np.int64) if a.dtype.kind in "mM" else a
+        ok = True
+    elif isinstance(out, pd.DataFrame):
         a = out.iloc[:, 0].to_numpy()
         off = 0 if vdt == "float32" else 1000003
         ok = all(np.array_equal(out.iloc[:, j].to_numpy() - off * j, a) for j in range(out.shape[1])) and out.shape[1] == ncols
